@@ -207,6 +207,9 @@ func checkC19(p *Prog, r *Report) {
 				"both assignments dominate the call", "setupUpgradeHandlers runs before app.ModuleManager / app.configurator are assigned: handlers would capture nil")
 		}
 	}
+	// the store loader hands `&u.StoreUpgrades` of the matched descriptor to x/upgrade: per-iteration loop variables (langver.go)
+	checkNoLanguageDowngrade(p, r, "C19")
+	checkModuleExtensionInterfaces(p, r, "C19", []string{"x/aol", "x/did", "x/pnft", "x/burn"})
 	// module versions are recorded when the chain starts: InitChainer stores the module manager's version map through the upgrade
 	// keeper before the modules' InitGenesis runs, on every path. (Without it the first upgrade sees an empty version map and
 	// RunMigrations re-runs InitGenesis of every module on the populated chain.) x/upgrade's own InitGenesis stores the map only
